@@ -86,6 +86,33 @@ def h(toks):
     return hashlib.sha256(txt(toks).encode('utf-8')).hexdigest()[:16]
 
 
+def fn_header_txt(toks):
+    """text of a `fn` header with the parameter NAMES (and the `mut` of by-value bindings) replaced by `_`:
+    renaming a parameter is not a structural change"""
+    out = []
+    depth = 0
+    seen_params = False
+    n = len(toks)
+    for j, t in enumerate(toks):
+        k, x = t
+        if k == 'p' and x == '(':
+            depth += 1
+            if depth == 1 and not seen_params:
+                seen_params = 'in'
+        elif k == 'p' and x == ')':
+            depth -= 1
+            if depth == 0 and seen_params == 'in':
+                seen_params = 'done'
+        if seen_params == 'in' and depth == 1 and k == 'id' and x not in ('self', 'mut') and j + 1 < n and toks[j + 1] == ('p', ':') \
+                and not (j + 2 < n and toks[j + 2] == ('p', ':')) and toks[j - 1][1] in ('(', ',', 'mut'):
+            if out and out[-1] == ('id', 'mut'):
+                out.pop()
+            out.append(('id', '_'))
+            continue
+        out.append(t)
+    return txt(out)
+
+
 def header_end(toks, i, b):
     """index of the `{` opening the body, or of the terminating `;`, of the item whose header starts
     at i: the first `{` / `;` outside parentheses, brackets and generic brackets"""
@@ -269,11 +296,11 @@ def items(toks, a, b, rel, where, out):
             e = header_end(toks, i, b)
             name = toks[i + 1][1]
             if toks[e] == ('p', ';'):
-                entry = txt(toks[i:e]) + ' ;'
+                entry = fn_header_txt(toks[i:e]) + ' ;'
                 nxt = e + 1
             else:
                 c = match_close(toks, e)
-                entry = txt(toks[i:e]) + ' { .. }'
+                entry = fn_header_txt(toks[i:e]) + ' { .. }'
                 if (rel, name) in PINNED:
                     entry += ' [pinned body %s]' % h(toks[e:c + 1])
                 elif rel.startswith(ASSERT_PINNED):
